@@ -1510,26 +1510,11 @@ Encoding Scheme for all columns single file
 func (ss *SegStore) FlushSegStats() error {
 
 	if len(ss.AllSst) <= 0 {
-		found := 0
-		tsKey := config.GetTimeStampKey()
-		// Flush is called once one of the cbufidx is >0, but if we find no columns
-		// with cbufidx > 0 other than timestamp column, only then declare this as an error
-		// else we won't create a sst file
-		for cname, cwip := range ss.wipBlock.colWips {
-			if cwip.cbufidx > 0 {
-				log.Infof("FlushSegStats: sst nil but cname: %v, cwip.cbufidx: %v, segkey: %v",
-					cname, cwip.cbufidx, ss.SegmentKey)
-				if cname != tsKey {
-					found += 1
-				}
-			}
-		}
-		if found == 0 {
-			log.Errorf("FlushSegStats: no segstats to flush, found: %v cwips with data", found)
-			return errors.New("FlushSegStats: no segstats to flush")
-		} else {
-			return nil
-		}
+		// no column statistics so far: the segment only holds records without any column besides the
+		// timestamp ({}, timestamp only, empty containers). That is not an error: there is just no sst
+		// file to write yet (failing here aborted AppendWipToSegfile half way and left the segment's
+		// block bookkeeping inconsistent, so records of later blocks were not searchable)
+		return nil
 	}
 
 	tempSSTFile := fmt.Sprintf("%v.sst.tmp", ss.SegmentKey)
